@@ -388,8 +388,8 @@ func (g *generator) getDiscriminator(schema *openapi3.Schema) (string, map[strin
 }
 
 func (g *generator) getRefName(value string) (string, string) {
-	// references into another file: `./refs/refs.json/#/components/schemas/A`, `../common.yml`
-	rgx := regexp.MustCompile(`(\.\./)*(\w*/)*(.*)\.(json|yml)($|[/#])`)
+	// references into another file: `./refs/refs.json/#/components/schemas/A`, `../common.yml`, `common.yaml#/…`
+	rgx := regexp.MustCompile(`(\.\./)*(\w*/)*(.*)\.(json|ya?ml)($|[/#])`)
 	group := rgx.FindStringSubmatch(value)
 
 	parts := strings.Split(value, "/")
